@@ -270,6 +270,11 @@ pub fn scenarios(tier: &str) -> Vec<Scenario> {
         mac("P(ts=2^64-1,zero-hash)", Kind::Growth, vec![Step::Params { ts: u64::MAX, zero_hash: true }]),
         m_block("B(call Ctx by p0)", vec![call_ctx(0)]),
         m_block("B(set, call Ctx by p2)", vec![s_set(0, 0, 1), call_ctx(2)]),
+        // the probe as a later transaction of its block: after a deposit (which runs with a zero transaction
+        // id), after a failed transaction, after another probe call with another sender and transaction id
+        m_block("B(deposit, call Ctx by p0)", vec![TxSpec::Deposit { pk: 1, ticker: "ordi".into(), amount: "0x2".into() }, call_ctx(0)]),
+        m_block("B(fail, call Ctx by p2)", vec![TxSpec::Call { pk: 1, tgt: Tgt::s(), data: vec![4], len: DEFAULT_LEN }, call_ctx(2)]),
+        m_block("B(call Ctx by p0, call Ctx by p2)", vec![call_ctx(0), call_ctx(2)]),
         m_block("B(T(s0,n0->Ctx))", vec![t_ctx(0)]),
         m_block("B(T(s0,n1->Ctx))", vec![t_ctx(1)]),
         m_block("B(deposit,withdraw)", vec![TxSpec::Deposit { pk: 1, ticker: "ordi".into(), amount: "0x5".into() }, TxSpec::Withdraw { pk: 1, ticker: "ordi".into(), amount: "0x1".into() }]),
